@@ -253,7 +253,7 @@ Proof.
     destruct (mc_struct c) as [sd|] eqn:St.
     + set (s2 := dset_cur s1 (d_origin s1 + nbytes_of kbl 0)).
       destruct (Hc c sd Hin St s2 eq_refl ltac:(cbn [s2 dset_cur d_cur]; rewrite O1; lia)) as [(v & s3 & G & N1 & N2)|[G|G]].
-      * rewrite G. cbn [bind fst snd]. left. eexists _, _. split; [reflexivity|]. unfold dmono. cbn [dset_origin d_msg d_cur].
+      * rewrite G. cbn [bind fst snd]. left. eexists _, _. split; [reflexivity|]. unfold dmono. cbn [dset_origin dset_cur d_msg d_cur].
         cbn [s2 dset_cur d_msg d_cur] in N1, N2. rewrite O1 in N2. split; [congruence | lia].
       * right. left. rewrite G. reflexivity.
       * right. right. rewrite G. reflexivity.
